@@ -495,6 +495,8 @@ func run(c *runner.Ctx) {
 			c.Sample(func() interface{} { return map[string]string{"entry": e.name, "value": sh.name} })
 		}
 	}
+	// (1a'') values of self-referential types (type T []T, type P *P, mutually recursive pairs): every entry point returns
+	selfRef(c, ents)
 	// (1a') the same catalogue as the object a rule set is registered for (nil, typed nils, scalars, collections, ...):
 	// registering and then validating returns normally whatever the target object is
 	c.Space("values-as-rule-set-targets")
